@@ -165,7 +165,7 @@ Section NativesDoc2.
     assert (G : forall l acc, (fix go (acc : mv) (l : list mv) {struct l} : sres :=
                match l with [] => SVal acc | x :: r => match s_add acc x with SVal acc' => go acc' r | SErr => SErr end end) acc l
                = s_fold acc l).
-    { induction l; intros; simpl; auto. destruct (s_add acc a0); auto. }
+    { induction l as [|y l IHl]; intros; simpl; auto; try (destruct (s_add acc y); auto). }
     destruct a; try reflexivity; unfold s_add_all; apply G.
   Qed.
   Lemma forall_wf_numtop l : forallb wf l = true -> Forall numtop l.
